@@ -655,7 +655,7 @@ def euler_to_u(phi1, PHI, phi2):
 def _arctan2(y, x):
     """Modified arctan function used locally in u_to_euler().
     """
-    tol = 1e-8
+    tol = 1e-8*max(n.abs(x), n.abs(y))
     if n.abs(x)<tol: x = 0
     if n.abs(y)<tol: y = 0
 
